@@ -229,6 +229,8 @@ where
             let x: F = rng.sample(StandardNormal);
             let v_cbrt = F::one() + self.c * x;
             if v_cbrt <= F::zero() {
+                #[cfg(rand_distr_verif)]
+                crate::verif_hooks::probe(10);
                 continue;
             }
 
@@ -240,8 +242,12 @@ where
                 || u.ln() < F::from(0.5).unwrap() * x_sqr + self.d * (F::one() - v + v.ln())
             {
                 // `x` is concentrated enough that `v` should always be finite
+                #[cfg(rand_distr_verif)]
+                crate::verif_hooks::probe(11);
                 return v;
             }
+            #[cfg(rand_distr_verif)]
+            crate::verif_hooks::probe(13);
         }
     }
 }
@@ -270,6 +276,8 @@ where
     fn sample<R: Rng + ?Sized>(&self, rng: &mut R) -> F {
         let u: F = rng.sample(Open01);
 
+        #[cfg(rand_distr_verif)]
+        crate::verif_hooks::probe(14);
         let a = self.large_shape.sample_unscaled(rng);
         let b = u.powf(self.inv_shape);
         // Multiplying numbers with `scale` can overflow, so do it last to avoid
